@@ -636,6 +636,9 @@ int write_evidence(const std::string &prop, int tier, uint64_t master, const std
   dump_prefix("oracle", "oracle.", all.n);
   dump_prefix("case_kinds", "kind.", all.n);
   dump_prefix("runs_per_variant", "variant.", all.n);
+  dump_prefix("peak_live_heap_by_config", "peak.", all.mx);
+  dump_prefix("frozen_bound_by_config", "bound.", all.mx);
+  dump_prefix("oracle_max", "oracle.", all.mx);
   o << "  \"wall_capped_workers\": " << all.n["wall_capped_workers"] << ",\n";
   o << "  \"nondeterminism_reports\": " << all.n["nondet"] << ",\n";
   o << "  \"components\": {\"real\": \"all of /repo/src/*.c compiled from the working tree with -DKJN_LBZIP2_VERIF (main.c signals.c process.c compress.c expand.c parse.c decode.c encode.c divbwt.c crctab.c timespec.c) plus libc's pure functions\", \"stub\": \"threads, mutexes, condition variables, signals, file system, pipes, process exit, heap bookkeeping, stdio on stderr/stdout, clock (sim/sim.cc)\"}\n";
